@@ -65,10 +65,10 @@ def run_property(pid, tier, seed, repo=None):
             distinct.add((ru.id, i))
         if res.instances:
             samples.append('%s[%s]: %s' % (ru.id, cfg, res.instances[0]))
-        per_rule.append({'rule': ru.id, 'config': cfg, 'instances': n, 'floor': ru.floor, 'violations': len(res.violations), 'doc': ru.doc})
-        if n < ru.floor:
+        per_rule.append({'rule': ru.id, 'config': cfg, 'instances': n, 'floor': ru.floor_for(cfg), 'violations': len(res.violations), 'doc': ru.doc})
+        if n < ru.floor_for(cfg):
             violations.append(engine.Violation(ru.id, 'below-floor/%s' % cfg, '-',
-                                               'rule examined %d instances, fewer than the %d confirmed by hand: the structure the clause relies on is gone or unrecognisable' % (n, ru.floor)))
+                                               'rule examined %d instances, fewer than the %d confirmed by hand: the structure the clause relies on is gone or unrecognisable' % (n, ru.floor_for(cfg))))
         violations.extend(res.violations)
     programs = 0
     for fam, fr in wres:
